@@ -238,6 +238,44 @@ int main(void)
 			}
 			free(desc);
 		}
+		else if (!strcmp(op, "xcreate") && drv_nw == 3) {
+			/* it xcreate <hex> : extreme / non-finite parameters: only the verdict of mpt_iterator_create is observed */
+			char *desc;
+			MPT_INTERFACE(metatype) *mt;
+			if (drv_parse_data(drv_w[2], &dat, &dlen, &isnull) || isnull || memchr(dat, 0, dlen)) { puts("bad-op"); free(dat); continue; }
+			desc = malloc(dlen + 1);
+			memcpy(desc, dat, dlen); desc[dlen] = 0;
+			free(dat);
+			if (has_ci(desc, "0x") || has_ci(desc, "file")) { puts("R unmodelled | C - | I -"); free(desc); continue; }
+			mt = mpt_iterator_create(desc);
+			free(desc);
+			if (!mt) { puts("R refused | C - | I -"); continue; }
+			mt->_vptr->unref(mt);
+			puts("R accepted | C - | I -");
+		}
+		else if (!strcmp(op, "poly") && drv_nw == 4) {
+			/* it poly <n|none> <hex|null> : mpt_iterator_poly(desc, array); `none`/0 = an array without data */
+			size_t n = 0;
+			char *desc = 0;
+			if (strcmp(drv_w[2], "none") && (drv_parse_nat(drv_w[2], &n) || n > 100000)) { puts("bad-op"); continue; }
+			if (strcmp(drv_w[3], "null")) {
+				if (drv_parse_data(drv_w[3], &dat, &dlen, &isnull) || isnull || memchr(dat, 0, dlen)) { puts("bad-op"); free(dat); continue; }
+				desc = malloc(dlen + 1);
+				memcpy(desc, dat, dlen); desc[dlen] = 0;
+				free(dat);
+				if (unmodelled(desc)) { puts("R unmodelled | C - | I -"); free(desc); continue; }
+			}
+			if (ngrid >= NSLOT) { puts("R refused-slots | C - | I -"); free(desc); continue; }
+			_MPT_ARRAY_TYPE(double) *arr = &grids[ngrid++];
+			memset(arr, 0, sizeof(*arr));
+			if (n) {
+				double *g = mpt_values_prepare(arr, n);
+				if (!g) { puts("R prepare-failed | C - | I -"); free(desc); continue; }
+				for (size_t i = 0; i < n; i++) g[i] = ((double) i - 2) / 2;
+			}
+			add_slot(mpt_iterator_poly(desc, arr), 1, -1);
+			free(desc);
+		}
 		else if (!strcmp(op, "string") && drv_nw == 4) {
 			/* it string <hex of text|null> <hex of separators|null> */
 			char *txt = 0, *sep = 0;
@@ -277,6 +315,19 @@ int main(void)
 			no_probe = 1;
 			add_slot(mt, 1, -1);
 			no_probe = 0;
+		}
+		else if (!strcmp(op, "word") && drv_nw == 2) {
+			/* current element of a text iterator as a word (vector of char) */
+			const MPT_STRUCT(value) *val;
+			struct iovec vec = { 0, 0 };
+			int r;
+			if (cur < 0) { puts("bad-op"); continue; }
+			val = slot_it[cur]->_vptr->value(slot_it[cur]);
+			if (!val) { puts("R null | C - | I -"); continue; }
+			if ((r = mpt_value_convert(val, MPT_type_toVector('c'), &vec)) < 0) { puts("R noconv | C - | I -"); continue; }
+			fputs("R word=", stdout);
+			drv_puthex(stdout, vec.iov_base, vec.iov_len);
+			puts(" | C - | I -");
 		}
 		else if (!strcmp(op, "svalue") && drv_nw == 2) {
 			const MPT_STRUCT(value) *val;
